@@ -28,7 +28,7 @@ ASSUMPTIONS = ["alpha, cover distances from scipy NNLS with certificates",
 N = {"quick": 260, "thorough": 8000}
 REQUIRE = {"quick": {"smallmij_events": 3000, "delta_events": 200, "cover_decisive_true": 200,
                      "cover_decisive_false": 200, "f1_events": 300, "f1_monotone_pairs": 300,
-                     "unequal_alpha_cones": 60, "hv_events": 24, "uncovered_events": 100}}
+                     "unequal_alpha_cones": 60, "hv_events": 24, "uncovered_events": 100, "integer_dtype_value_sets": 20}}
 TIMEOUT = {"quick": 900, "thorough": 5400}
 
 D1_W = [[1, 0, 0], [0, 1, 0], [0, -0.6, 0.8]]
@@ -366,6 +366,11 @@ def shard(mon, tier, rng, shard_no, nshards):
         W = order.ordering_cone.W
         scale = gen.rand_scale(rng)
         X = value_set(rng, m, W, int(rng.integers(2, 41 if it % 4 else 13)), scale)
+        if it % 5 == 4:
+            # integer-typed value arrays (e.g. raw lattice data): the metrics must not depend on the dtype
+            X = np.round(X / scale * 3).astype(np.int64)
+            scale = 1.0
+            mon.count("integer_dtype_value_sets")
         check_gaps(mon, rng, label, order, X)
         check_cover(mon, rng, label, order, X, scale)
         check_uncovered(mon, rng, label, order, X, scale)
